@@ -363,7 +363,10 @@ def check_convert_value(val: str, char: Characteristic) -> Any:
         # See https://github.com/home-assistant/core/issues/37083
         if char.minStep:
             with localcontext() as ctx:
-                ctx.prec = 6
+                # Six significant digits are deliberate for fractional values; integer
+                # formats reach 2**64 and have to be computed exactly.
+                if char.format not in INTEGER_TYPES:
+                    ctx.prec = 6
 
                 # Python3 uses bankers rounding by default, so 28.5 rounds to 28, not 29.
                 # This is surprising for most people
